@@ -71,4 +71,17 @@ Vlq(n) == IF n < 128 THEN <<n>>
           ELSE <<128 + (n \div 2097152), 128 + ((n \div 16384) % 128), 128 + ((n \div 128) % 128), n % 128>>
 VlqDecode(bs) == LET F(acc, b) == acc * 128 + (b % 128) IN FoldLeft(F, 0, bs)
 VlqWellFormed(bs) == Len(bs) \in 1..4 /\ (\A i \in 1..(Len(bs) - 1) : bs[i] >= 128) /\ bs[Len(bs)] < 128
+
+\* ---- round trip (C17): the flattened sequence of (length in MIDI ticks, set of <<pitch, channel, velocity>>)
+\* with adjacent rests merged and trailing rests removed
+FlatItem(t, notes) == [t |-> t, s |-> {<<MidiPitch(notes[i]), notes[i].ch, notes[i].vel>> : i \in 1..Len(notes)}]
+MergeRests(items) ==
+    LET F(acc, x) == IF acc # <<>> /\ x.s = {} /\ acc[Len(acc)].s = {}
+                     THEN [acc EXCEPT ![Len(acc)].t = @ + x.t] ELSE Append(acc, x) IN
+    FoldLeft(F, <<>>, items)
+RECURSIVE DropTrailingRests(_)
+DropTrailingRests(items) == IF items # <<>> /\ items[Len(items)].s = {} THEN DropTrailingRests(SubSeq(items, 1, Len(items) - 1)) ELSE items
+Flat(items) == DropTrailingRests(MergeRests(items))
+\* a program survives the round trip exactly when every entry has a whole tick count and every velocity is 1..127
+WholeTicks(t) == (288 * t) % L = 0
 =============================================================================
